@@ -25,8 +25,8 @@ ASSUMPTIONS = [
     "RDF text equality is not claimed across calls (blank-node labels); graphs are compared instead when texts differ",
     "text-mode path sources are opened by the library with the platform default encoding; the sandbox default is UTF-8",
 ]
-FORMATS = ["json", "xml", "rdf", "provn"]
-READABLE = ["json", "xml", "rdf"]
+FORMATS = ["json", "json-raw", "xml", "rdf", "provn"]     # json-raw = json with ensure_ascii=False
+READABLE = ["json", "json-raw", "xml", "rdf"]
 REQUIRED_CLASSES = {"all": ["dest:%s:%s" % (f, d) for f in FORMATS for d in ("str", "text", "binary", "path")] +
                     ["src:%s:%s" % (f, s) for f in READABLE for s in ("content_str", "content_bytes", "text", "binary", "path")] +
                     ["read:%s:%s:%s" % (f, s, m) for f in READABLE for s in ("path", "text", "binary") for m in ("auto", "explicit")]}
@@ -116,27 +116,29 @@ def check(case, ctx):
         if diff:
             items.append(_it("content_differs:%s" % where, first=diff[0]))
 
-    for fmt in FORMATS:
+    for fmt_name in FORMATS:
+        fmt = "json" if fmt_name == "json-raw" else fmt_name
+        kw = {"ensure_ascii": False} if fmt_name == "json-raw" else {}
         try:
             c07.deterministic_bnodes()
-            s_str = d.serialize(format=fmt)
-            ctx.count("dest:%s:str" % fmt)
+            s_str = d.serialize(format=fmt, **kw)
+            ctx.count("dest:%s:str" % fmt_name)
             c07.deterministic_bnodes()
             t = io.StringIO()
-            d.serialize(t, format=fmt)
+            d.serialize(t, format=fmt, **kw)
             s_text = t.getvalue()
-            ctx.count("dest:%s:text" % fmt)
+            ctx.count("dest:%s:text" % fmt_name)
             c07.deterministic_bnodes()
             bio = io.BytesIO()
-            d.serialize(bio, format=fmt)
+            d.serialize(bio, format=fmt, **kw)
             s_bin = bio.getvalue()
-            ctx.count("dest:%s:binary" % fmt)
-            path = os.path.join(wd, "doc-%s.%s" % (fmt, fmt))
+            ctx.count("dest:%s:binary" % fmt_name)
+            path = os.path.join(wd, "doc-%s.%s" % (fmt_name, fmt))
             c07.deterministic_bnodes()
-            d.serialize(path, format=fmt)
+            d.serialize(path, format=fmt, **kw)
             with open(path, "rb") as f:
                 s_path = f.read()
-            ctx.count("dest:%s:path" % fmt)
+            ctx.count("dest:%s:path" % fmt_name)
         except Exception as e:
             return [exc_item(e, "serialize:" + fmt)]
         if not isinstance(s_str, str) or not isinstance(s_text, str) or not isinstance(s_bin, bytes):
@@ -153,7 +155,7 @@ def check(case, ctx):
             items.append(_it("binary_not_utf8:%s" % fmt))
         if fmt == "xml" and s_bin != s_path:
             items.append(_it("text_differs:xml:binarystream_vs_file"))
-        if fmt not in READABLE or items:
+        if fmt_name not in READABLE or items:
             continue
         sources = {
             "content_str": lambda: dict(content=s_str), "content_bytes": lambda: dict(content=s_bin),
@@ -166,7 +168,7 @@ def check(case, ctx):
             except Exception as e:
                 items.append(exc_item(e, "deserialize:%s:%s" % (fmt, name)))
                 continue
-            ctx.count("src:%s:%s" % (fmt, name))
+            ctx.count("src:%s:%s" % (fmt_name, name))
             if d2 is None:
                 items.append(_it("deserialize_returned_none:%s:%s" % (fmt, name)))
                 continue
@@ -179,7 +181,7 @@ def check(case, ctx):
                 except Exception as e:
                     items.append(exc_item(e, "read:%s:%s:%s" % (fmt, name, mode)))
                     continue
-                ctx.count("read:%s:%s:%s" % (fmt, name, mode))
+                ctx.count("read:%s:%s:%s" % (fmt_name, name, mode))
                 if d3 is None:
                     items.append(_it("read_returned_none:%s:%s:%s" % (fmt, name, mode)))
                     continue
